@@ -246,37 +246,71 @@ def run(ctx):
         pool = [c for c in H.flavour_classes(fname) if not (fname == "vanilla" and c.id == 41)]
         keep = Deserializer(H.FLAVOURS[fname]())
         log = []
-        for _step in range(rng.randrange(3, 8)):
-            instrs = []
-            for _k in range(rng.randrange(1, 6)):
-                c = rng.choice(pool)
-                fs = H.T.operand_fields(c)
-                instrs.append(c(**{f.name: rng.choice(H.values_for(k, rng, 2)) for f, k in zip(fs, H.shape_of(c))}))
-            raw = bytes(H.Subroutine(instructions=instrs, app_id=rng.randrange(65536)))
-            corrupt = rng.random() < 0.4
-            if corrupt and len(raw) > 11:
-                # unknown opcode in a later command, or a truncated buffer
-                b = bytearray(raw)
-                if rng.random() < 0.7:
-                    b[4 + 7 * rng.randrange(1, len(instrs))] = rng.choice([200, 238, 255])
-                else:
-                    b = b[:-rng.randrange(1, 7)]
-                raw = bytes(b)
+        seen_bufs = []  # (raw, expected json snapshot taken at first sight, before anything is edited)
+        for _step in range(rng.randrange(3, 9)):
+            if seen_bufs and rng.random() < 0.45:
+                # the very same bytes again (an application re-submitting a subroutine), after earlier results
+                # of decoding them may have been edited in place by their receiver
+                raw, expect = rng.choice(seen_bufs)
+                corrupt, n_i, again = False, None, True
+            else:
+                instrs = []
+                for _k in range(rng.randrange(1, 6)):
+                    c = rng.choice(pool)
+                    fs = H.T.operand_fields(c)
+                    instrs.append(c(**{f.name: rng.choice(H.values_for(k, rng, 2)) for f, k in zip(fs, H.shape_of(c))}))
+                raw = bytes(H.Subroutine(instructions=instrs, app_id=rng.randrange(65536)))
+                corrupt = rng.random() < 0.4
+                if corrupt and len(raw) > 11:
+                    # unknown opcode in a later command, or a truncated buffer
+                    b = bytearray(raw)
+                    if rng.random() < 0.7:
+                        b[4 + 7 * rng.randrange(1, len(instrs))] = rng.choice([200, 238, 255])
+                    else:
+                        b = b[:-rng.randrange(1, 7)]
+                    raw = bytes(b)
+                fresh = H.real_decode_sub(fname, raw)
+                expect = None if fresh is None else ([H.instr_to_json(i) for i in fresh.instructions], fresh.app_id)
+                if not corrupt and expect is not None and expect[0] != [H.instr_to_json(i) for i in instrs]:
+                    expect = ([H.instr_to_json(i) for i in instrs], expect[1])  # judged by streams A/B; keep the source
+                seen_bufs.append((raw, expect))
+                n_i, again = len(instrs), False
             use_default = fname == "vanilla" and rng.random() < 0.5
-            log.append({"corrupt": corrupt, "default_deserialize": use_default, "n": len(instrs)})
+            entry = {"corrupt": corrupt, "default_deserialize": use_default, "n": n_i, "same_bytes_again": again}
+            log.append(entry)
             try:
                 got = deserialize(raw) if use_default else keep.deserialize_subroutine(raw)
             except Exception:
                 got = None
-            fresh = H.real_decode_sub(fname, raw)
             res.evaluations += 1
-            res.count("decoder-history-step")
+            res.count("decoder-history-step" + ("-same-bytes" if again else ""))
             a = None if got is None else ([H.instr_to_json(i) for i in got.instructions], got.app_id)
-            b2 = None if fresh is None else ([H.instr_to_json(i) for i in fresh.instructions], fresh.app_id)
-            if a != b2:
+            if a != expect:
                 res.failures.append({"what": "a decoder that was used before decodes a buffer differently from a fresh decoder",
-                                     "kf": None, "input": {"fl": fname, "history": log, "reused": a, "fresh": b2}})
+                                     "kf": None, "input": {"fl": fname, "history": log, "reused": a, "fresh": expect}})
                 break
+            # the receiver edits what it was given, in place (the NV transpiler rewrites branch targets of a decoded
+            # subroutine in place; a debugger patches operands): this must stay private to that result
+            if got is not None and got.instructions and rng.random() < 0.7:
+                edits = []
+                for _e in range(rng.randrange(1, 4)):
+                    i = rng.choice(got.instructions)
+                    fs = H.T.operand_fields(type(i))
+                    if not fs:
+                        continue
+                    if rng.random() < 0.5:
+                        k = rng.randrange(len(fs))
+                        setattr(i, fs[k].name, rng.choice(H.values_for(H.shape_of(type(i))[k], rng, 1)))
+                        edits.append("assign-field")
+                    else:
+                        for o in i.operands:
+                            if H.mutate_operand_in_place(o, rng):
+                                edits.append("edit-operand-in-place")
+                                break
+                if rng.random() < 0.3:
+                    got.instructions.pop(rng.randrange(len(got.instructions)))
+                    edits.append("pop-instruction")
+                entry["receiver_edits_result"] = edits
         res.nontrivial.add(("dechist", fname, len(log), sum(x["corrupt"] for x in log)))
     # -- stream A': round trips under every process-wide configuration (hardware flag, simulator selection,
     # log level): losslessness must not depend on any of it
